@@ -116,8 +116,9 @@ def obligations(tier):
         claim="real getln/getln2 over the real substdio and stralloc: returns exactly the bytes up to and including the first sep "
               "(match 1), or the rest of the input at EOF (match 0), leaves the rest of the stream for the next call; -1 only after a "
               "hard read error or a refused allocation - the contract of lib/ideal_getln.c",
-        expect_witnesses=lambda p: ["line", "empty_line", "partial_line_at_eof", "eof", "grew", "read_error", "alloc_refused",
-                                    "line_across_refills_rest_kept"]))
+        # BN 1: a refill brings one byte, so nothing can be left behind the separator
+        expect_witnesses=lambda p: ["line", "empty_line", "partial_line_at_eof", "eof", "grew", "read_error", "alloc_refused"]
+        + (["line_across_refills_rest_kept"] if p["BN"] >= 2 else [])))
     # ---------------------------------------------------------------- (d) allocator arithmetic
     kinds = {0: ("stralloc_readyplus", ["stralloc_eady.c"]), 1: ("stralloc_ready", ["stralloc_eady.c"]),
              2: ("prioq_readyplus", ["prioq.c"]), 3: ("token822_readyplus", ["token822.c"]),
